@@ -1,0 +1,446 @@
+//! Verification seam, compiled only with `--cfg may_verif`.
+//!
+//! A deterministic-simulation harness installs one [`Hooks`] object; every
+//! shimmed operation (atomics, thread park/unpark/sleep, clock, blocking locks,
+//! the epoll idle wait) then reports to it *before* it is executed, so the
+//! harness decides which OS thread performs the next shared-memory operation.
+//! With nothing installed every shim falls through to the real behaviour.
+
+use std::fmt;
+use std::panic::Location;
+use std::sync::atomic::Ordering;
+use std::sync::OnceLock;
+
+pub type Loc = &'static Location<'static>;
+
+/// kind of the operation that is about to be executed at a schedule point
+#[derive(Clone, Copy, Debug, PartialEq, Eq)]
+#[repr(u8)]
+pub enum Op {
+    Load = 0,
+    Store = 1,
+    Swap = 2,
+    Cas = 3,
+    CasWeak = 4,
+    Rmw = 5,
+    Fence = 6,
+    OptStore = 7,
+    OptTake = 8,
+    OptClear = 9,
+    QPush = 10,
+    QPop = 11,
+    LockTry = 12,
+    Unlock = 13,
+    Misc = 14,
+}
+
+#[allow(unused_variables)]
+pub trait Hooks: Sync + 'static {
+    /// a schedule point: `op` on `addr` is about to be executed by the caller
+    fn point(&self, op: Op, addr: usize, loc: Loc);
+    /// should this `compare_exchange_weak` fail spuriously?
+    fn cas_weak_fail(&self, loc: Loc) -> bool {
+        false
+    }
+    // ---- threads
+    /// parent side, before the OS thread is created; returns a token
+    fn spawn_prepare(&self) -> usize;
+    /// first thing the child does (registers, then waits to be scheduled)
+    fn spawn_child_begin(&self, tok: usize);
+    /// last thing the child does
+    fn spawn_child_end(&self, tok: usize);
+    /// parent side, after the OS thread was created: wait until it is registered
+    fn spawn_parent_wait(&self, tok: usize);
+    /// token of the calling thread, `usize::MAX` if it is not simulated
+    fn current(&self) -> usize;
+    /// `std::thread::park` / `park_timeout` semantics (token, spurious wake allowed)
+    fn park(&self, timeout_ns: Option<u64>);
+    fn unpark(&self, tok: usize);
+    fn sleep(&self, ns: u64);
+    fn yield_now(&self);
+    // ---- clock
+    fn now_ns(&self) -> u64;
+    // ---- blocking on an address (locks, condvars); true = woken, false = timed out
+    fn block_on(&self, key: usize, timeout_ns: Option<u64>) -> bool;
+    fn wake(&self, key: usize, all: bool);
+    // ---- io
+    /// the idle wait of an event loop; returns when the epoll fd is readable or
+    /// the timeout elapsed (virtually); the caller then polls with timeout 0
+    fn epoll_block(&self, epfd: i32, timeout_ms: isize);
+    /// something that may change fd readiness just happened
+    fn io_event(&self) {}
+    // ---- observation only
+    fn co_enter(&self, key: usize) {}
+    fn co_leave(&self, key: usize) {}
+    fn probe(&self, name: &'static str) {}
+}
+
+static HOOKS: OnceLock<&'static dyn Hooks> = OnceLock::new();
+
+/// install the hooks, must be called before any other thread exists
+pub fn install(h: &'static dyn Hooks) {
+    if HOOKS.set(h).is_err() {
+        panic!("may_verif hooks already installed");
+    }
+}
+
+#[inline]
+pub fn hooks() -> Option<&'static dyn Hooks> {
+    HOOKS.get().copied()
+}
+
+#[inline]
+#[track_caller]
+pub fn point(op: Op, addr: usize) {
+    if let Some(h) = hooks() {
+        h.point(op, addr, Location::caller());
+    }
+}
+
+#[inline]
+pub fn probe(name: &'static str) {
+    if let Some(h) = hooks() {
+        h.probe(name);
+    }
+}
+
+#[inline]
+#[track_caller]
+fn weak_fail() -> bool {
+    match hooks() {
+        Some(h) => h.cas_weak_fail(Location::caller()),
+        None => false,
+    }
+}
+
+/// drop-in replacements of `std::sync::atomic::*`, every operation is a schedule point
+pub mod atomic {
+    use super::*;
+    pub use std::sync::atomic::Ordering;
+
+    #[inline]
+    #[track_caller]
+    pub fn fence(order: Ordering) {
+        point(Op::Fence, 0);
+        std::sync::atomic::fence(order);
+    }
+
+    macro_rules! common {
+        ($name:ident, $std:ty, $val:ty) => {
+            #[repr(transparent)]
+            pub struct $name($std);
+
+            impl $name {
+                #[inline]
+                pub const fn new(v: $val) -> Self {
+                    Self(<$std>::new(v))
+                }
+                #[inline]
+                pub fn get_mut(&mut self) -> &mut $val {
+                    self.0.get_mut()
+                }
+                #[inline]
+                pub fn into_inner(self) -> $val {
+                    self.0.into_inner()
+                }
+                #[inline]
+                fn addr(&self) -> usize {
+                    self as *const _ as usize
+                }
+                #[inline]
+                #[track_caller]
+                pub fn load(&self, o: Ordering) -> $val {
+                    point(Op::Load, self.addr());
+                    self.0.load(o)
+                }
+                #[inline]
+                #[track_caller]
+                pub fn store(&self, v: $val, o: Ordering) {
+                    point(Op::Store, self.addr());
+                    self.0.store(v, o)
+                }
+                #[inline]
+                #[track_caller]
+                pub fn swap(&self, v: $val, o: Ordering) -> $val {
+                    point(Op::Swap, self.addr());
+                    self.0.swap(v, o)
+                }
+                #[inline]
+                #[track_caller]
+                pub fn compare_exchange(
+                    &self,
+                    c: $val,
+                    n: $val,
+                    s: Ordering,
+                    f: Ordering,
+                ) -> Result<$val, $val> {
+                    point(Op::Cas, self.addr());
+                    self.0.compare_exchange(c, n, s, f)
+                }
+                #[inline]
+                #[track_caller]
+                pub fn compare_exchange_weak(
+                    &self,
+                    c: $val,
+                    n: $val,
+                    s: Ordering,
+                    f: Ordering,
+                ) -> Result<$val, $val> {
+                    point(Op::CasWeak, self.addr());
+                    if weak_fail() {
+                        return Err(self.0.load(f));
+                    }
+                    self.0.compare_exchange_weak(c, n, s, f)
+                }
+            }
+
+            impl fmt::Debug for $name {
+                fn fmt(&self, f: &mut fmt::Formatter<'_>) -> fmt::Result {
+                    fmt::Debug::fmt(&self.0, f)
+                }
+            }
+
+            impl From<$val> for $name {
+                fn from(v: $val) -> Self {
+                    Self::new(v)
+                }
+            }
+        };
+    }
+
+    macro_rules! arith {
+        ($name:ident, $val:ty) => {
+            impl $name {
+                #[inline]
+                #[track_caller]
+                pub fn fetch_add(&self, v: $val, o: Ordering) -> $val {
+                    point(Op::Rmw, self.addr());
+                    self.0.fetch_add(v, o)
+                }
+                #[inline]
+                #[track_caller]
+                pub fn fetch_sub(&self, v: $val, o: Ordering) -> $val {
+                    point(Op::Rmw, self.addr());
+                    self.0.fetch_sub(v, o)
+                }
+            }
+            impl Default for $name {
+                fn default() -> Self {
+                    Self::new(Default::default())
+                }
+            }
+        };
+    }
+
+    macro_rules! bits {
+        ($name:ident, $val:ty) => {
+            impl $name {
+                #[inline]
+                #[track_caller]
+                pub fn fetch_or(&self, v: $val, o: Ordering) -> $val {
+                    point(Op::Rmw, self.addr());
+                    self.0.fetch_or(v, o)
+                }
+                #[inline]
+                #[track_caller]
+                pub fn fetch_and(&self, v: $val, o: Ordering) -> $val {
+                    point(Op::Rmw, self.addr());
+                    self.0.fetch_and(v, o)
+                }
+                #[inline]
+                #[track_caller]
+                pub fn fetch_xor(&self, v: $val, o: Ordering) -> $val {
+                    point(Op::Rmw, self.addr());
+                    self.0.fetch_xor(v, o)
+                }
+            }
+        };
+    }
+
+    common!(AtomicUsize, std::sync::atomic::AtomicUsize, usize);
+    arith!(AtomicUsize, usize);
+    bits!(AtomicUsize, usize);
+    common!(AtomicIsize, std::sync::atomic::AtomicIsize, isize);
+    arith!(AtomicIsize, isize);
+    bits!(AtomicIsize, isize);
+    common!(AtomicU64, std::sync::atomic::AtomicU64, u64);
+    arith!(AtomicU64, u64);
+    bits!(AtomicU64, u64);
+    common!(AtomicU32, std::sync::atomic::AtomicU32, u32);
+    arith!(AtomicU32, u32);
+    bits!(AtomicU32, u32);
+    common!(AtomicBool, std::sync::atomic::AtomicBool, bool);
+    bits!(AtomicBool, bool);
+    impl Default for AtomicBool {
+        fn default() -> Self {
+            Self::new(false)
+        }
+    }
+
+    #[repr(transparent)]
+    pub struct AtomicPtr<T>(std::sync::atomic::AtomicPtr<T>);
+
+    impl<T> AtomicPtr<T> {
+        #[inline]
+        pub const fn new(v: *mut T) -> Self {
+            Self(std::sync::atomic::AtomicPtr::new(v))
+        }
+        #[inline]
+        pub fn get_mut(&mut self) -> &mut *mut T {
+            self.0.get_mut()
+        }
+        #[inline]
+        pub fn into_inner(self) -> *mut T {
+            self.0.into_inner()
+        }
+        #[inline]
+        fn addr(&self) -> usize {
+            self as *const _ as usize
+        }
+        #[inline]
+        #[track_caller]
+        pub fn load(&self, o: Ordering) -> *mut T {
+            point(Op::Load, self.addr());
+            self.0.load(o)
+        }
+        #[inline]
+        #[track_caller]
+        pub fn store(&self, v: *mut T, o: Ordering) {
+            point(Op::Store, self.addr());
+            self.0.store(v, o)
+        }
+        #[inline]
+        #[track_caller]
+        pub fn swap(&self, v: *mut T, o: Ordering) -> *mut T {
+            point(Op::Swap, self.addr());
+            self.0.swap(v, o)
+        }
+        #[inline]
+        #[track_caller]
+        pub fn compare_exchange(
+            &self,
+            c: *mut T,
+            n: *mut T,
+            s: Ordering,
+            f: Ordering,
+        ) -> Result<*mut T, *mut T> {
+            point(Op::Cas, self.addr());
+            self.0.compare_exchange(c, n, s, f)
+        }
+        #[inline]
+        #[track_caller]
+        pub fn compare_exchange_weak(
+            &self,
+            c: *mut T,
+            n: *mut T,
+            s: Ordering,
+            f: Ordering,
+        ) -> Result<*mut T, *mut T> {
+            point(Op::CasWeak, self.addr());
+            if weak_fail() {
+                return Err(self.0.load(f));
+            }
+            self.0.compare_exchange_weak(c, n, s, f)
+        }
+    }
+
+    impl<T> fmt::Debug for AtomicPtr<T> {
+        fn fmt(&self, f: &mut fmt::Formatter<'_>) -> fmt::Result {
+            fmt::Debug::fmt(&self.0, f)
+        }
+    }
+
+    impl<T> Default for AtomicPtr<T> {
+        fn default() -> Self {
+            Self::new(std::ptr::null_mut())
+        }
+    }
+}
+
+// schedule points for the queue's own wrappers (`crate::atomic`): inherent
+// methods take precedence over the ones reached through `Deref`
+macro_rules! wrapper_points {
+    ($ty:ty, $val:ty, [$($g:tt)*]) => {
+        impl<$($g)*> $ty {
+            #[inline]
+            fn verif_addr(&self) -> usize {
+                self as *const _ as usize
+            }
+            #[inline]
+            #[track_caller]
+            pub(crate) fn load(&self, o: Ordering) -> $val {
+                point(Op::Load, self.verif_addr());
+                std::ops::Deref::deref(self).load(o)
+            }
+            #[inline]
+            #[track_caller]
+            pub(crate) fn store(&self, v: $val, o: Ordering) {
+                point(Op::Store, self.verif_addr());
+                std::ops::Deref::deref(self).store(v, o)
+            }
+            #[inline]
+            #[track_caller]
+            #[allow(dead_code)]
+            pub(crate) fn swap(&self, v: $val, o: Ordering) -> $val {
+                point(Op::Swap, self.verif_addr());
+                std::ops::Deref::deref(self).swap(v, o)
+            }
+            #[inline]
+            #[track_caller]
+            #[allow(dead_code)]
+            pub(crate) fn compare_exchange(
+                &self,
+                c: $val,
+                n: $val,
+                s: Ordering,
+                f: Ordering,
+            ) -> Result<$val, $val> {
+                point(Op::Cas, self.verif_addr());
+                std::ops::Deref::deref(self).compare_exchange(c, n, s, f)
+            }
+            #[inline]
+            #[track_caller]
+            #[allow(dead_code)]
+            pub(crate) fn compare_exchange_weak(
+                &self,
+                c: $val,
+                n: $val,
+                s: Ordering,
+                f: Ordering,
+            ) -> Result<$val, $val> {
+                point(Op::CasWeak, self.verif_addr());
+                if weak_fail() {
+                    return Err(std::ops::Deref::deref(self).load(f));
+                }
+                std::ops::Deref::deref(self).compare_exchange_weak(c, n, s, f)
+            }
+        }
+    };
+}
+
+wrapper_points!(crate::atomic::AtomicUsize, usize, []);
+wrapper_points!(crate::atomic::AtomicPtr<T>, *mut T, [T]);
+
+impl crate::atomic::AtomicUsize {
+    #[inline]
+    #[track_caller]
+    #[allow(dead_code)]
+    pub(crate) fn fetch_add(&self, v: usize, o: Ordering) -> usize {
+        point(Op::Rmw, self.verif_addr());
+        std::ops::Deref::deref(self).fetch_add(v, o)
+    }
+    #[inline]
+    #[track_caller]
+    pub(crate) fn fetch_sub(&self, v: usize, o: Ordering) -> usize {
+        point(Op::Rmw, self.verif_addr());
+        std::ops::Deref::deref(self).fetch_sub(v, o)
+    }
+}
+
+/// virtual `std::thread::sleep` (used by the spmc back-off)
+pub fn sleep(dur: std::time::Duration) {
+    match hooks() {
+        Some(h) if h.current() != usize::MAX => h.sleep(dur.as_nanos() as u64),
+        _ => std::thread::sleep(dur),
+    }
+}
